@@ -5,6 +5,10 @@ import SynthVerif.Props.C01
 import SynthVerif.Props.C06
 import SynthVerif.Props.C07
 import SynthVerif.Tie.QuantRun
+import SynthVerif.Tie.Glide
+import SynthVerif.Tie.Ribbon
+import SynthVerif.Props.C13
+import SynthVerif.Props.C17
 /-!
 # Tie 1d, end to end: property theorems restated for the *translated source*
 
@@ -82,5 +86,73 @@ theorem quant_src_never_forbidden (s : Src.quantizer.Quantizer) (h : C07.QInv (T
       rw [e] at hbit; exact hbit
     · have e : ((Tie.Quant.abs s).convert v).1.allowed = s'.allowed := by rw [← ht]; rfl
       rw [e] at hall; exact hall
+
+/-! ## C17 for the translated source: no panic -/
+
+/-- `MonoMidiReceiver::parse` as translated never panics: for every receiver state and every byte -/
+theorem midi_src_parse_total (s : Src.mono_midi_receiver.MonoMidiReceiver) (b : Nat) :
+    ∃ s', Src.mono_midi_receiver.MonoMidiReceiver.parse s b = some s' := by
+  have h := Tie.Midi.parse_tie s b
+  cases hp : Src.mono_midi_receiver.MonoMidiReceiver.parse s b with
+  | none => rw [hp] at h; simp at h
+  | some s' => exact ⟨s', rfl⟩
+
+/-- `Quantizer::convert` as translated never panics: for every state (any cached record, any scale bits) and every
+`f32`, NaN and ±∞ included; in particular no integer operation of the search overflows. -/
+theorem quant_src_convert_total (s : Src.quantizer.Quantizer) (v : F32) :
+    ∃ r, Src.quantizer.Quantizer.convert s v = some r := by
+  have h := Tie.Quant.convert_tie Tie.Quant.search_tie s v
+  cases hc : Src.quantizer.Quantizer.convert s v with
+  | none => rw [hc] at h; simp at h
+  | some r => exact ⟨r, rfl⟩
+
+/-- `GlideProcessor::process` as translated never panics -/
+theorem glide_src_process_total (s : Src.glide_processor.GlideProcessor) (x : F32) :
+    ∃ r, Src.glide_processor.GlideProcessor.process s x = some r := by
+  have h := Tie.Glide.process_tie s x
+  cases hc : Src.glide_processor.GlideProcessor.process s x with
+  | none => rw [hc] at h; simp at h
+  | some r => exact ⟨r, rfl⟩
+
+/-- `GlideProcessor::new` and `set_time` as translated never panic for sample rates in `[100, 48000]` Hz and *any*
+`f32` time (negative, zero, NaN, ∞ included) -/
+theorem glide_src_set_time_total (σ : ℚ) (ns : Bool) (lo : 100 ≤ σ) (hi : σ ≤ 48000) (hrep : F32.Rep σ) (t : F32) :
+    ∃ s s', Src.glide_processor.GlideProcessor.new (.fin σ ns) = some s ∧
+      Src.glide_processor.GlideProcessor.set_time s t = some s' := by
+  obtain ⟨g, hg, hinv, _⟩ := C13.new_inv σ ns lo hi hrep
+  obtain ⟨hmap, hwf⟩ := Tie.Glide.new_tie (.fin σ ns)
+  rw [hg] at hmap
+  cases hn : Src.glide_processor.GlideProcessor.new (.fin σ ns) with
+  | none => rw [hn] at hmap; simp at hmap
+  | some s =>
+    rw [hn] at hmap
+    simp only [Option.map_some, Option.some.injEq] at hmap
+    obtain ⟨g', hg', _⟩ := C13.setTime_inv g σ ns hinv t
+    obtain ⟨hmap2, _⟩ := Tie.Glide.set_time_tie s (hwf s hn) t
+    rw [hmap, hg'] at hmap2
+    cases hs : Src.glide_processor.GlideProcessor.set_time s t with
+    | none => rw [hs] at hmap2; simp at hmap2
+    | some s' => exact ⟨s, s', rfl, hs⟩
+
+/-- `RibbonController::poll` as translated panics exactly when the model says so: never, once the buffer capacity is at
+least the number of discarded samples (which `sample_rate_to_capacity` guarantees, `C17.ribbon_new_ok`) -/
+theorem ribbon_src_poll_total {N : Nat} (s : Src.ribbon_controller.RibbonController N) (h : Tie.Ribbon.WF s)
+    (hc : s.num_to_discard_at_end ≤ s.buff.cap) (x : F32) :
+    ∃ s', Src.ribbon_controller.RibbonController.poll s x = some s' := by
+  obtain ⟨hmap, _⟩ := Tie.Ribbon.poll_tie s h x
+  cases hp : Src.ribbon_controller.RibbonController.poll s x with
+  | some s' => exact ⟨s', rfl⟩
+  | none =>
+    exfalso
+    rw [hp] at hmap
+    simp only [Option.map_none] at hmap
+    have hm : (Tie.Ribbon.abs s).poll x ≠ none := by
+      have hcap : ¬ (HistBuf.write s.buff x).capacity < s.num_to_discard_at_end := by
+        simp only [HistBuf.capacity, Tie.Ribbon.write_cap]; omega
+      unfold _root_.Ribbon.poll
+      simp only [Tie.Ribbon.abs, hcap, if_false]
+      repeat' split
+      all_goals simp
+    exact hm hmap.symm
 
 end Tie.Transfer
